@@ -954,3 +954,81 @@ contract(
     gen=lambda rng, case: {"self": corr_random(rng), "dt": rng.choice([0, 1, -1, 2, 5, -7, 9, 13, -16, 23])},
     note="assumed: np.roll(x, s)[k] == x[(k - s) mod len(x)]",
 )
+
+
+# ---------------------------------------------------------------------------------------------------
+# Corr.m_eff, variants log / logsym / arccosh (C15): which timeslices enter, where the result is undefined
+
+from pyvc.sym import uf as _uf  # noqa: E402
+
+
+def _fn(name, x):
+    if isinstance(x, Sym):
+        return wrap(_uf(name)(treal(x)))
+    import numpy as np
+    with np.errstate(all="ignore"):
+        return float(getattr(np, name)(float(x)))
+
+
+def _meff_expected(a, t):
+    """(undefined?, value) of the effective mass at timeslice t"""
+    c, T, v = a.self, Tn(a.self), a.variant
+    if v == "log":
+        und = Or(t >= T - 1, CN(c, t), CN(c, t + 1), CV(c, t + 1) == 0, CV(c, t) / CV(c, t + 1) < 0)
+        val = _fn("log", CV(c, t) / CV(c, t + 1))
+    elif v == "logsym":
+        und = Or(t < 1, t >= T - 1, CN(c, t - 1), CN(c, t + 1), CV(c, t + 1) == 0, CV(c, t - 1) / CV(c, t + 1) < 0)
+        val = _fn("log", CV(c, t - 1) / CV(c, t + 1)) / 2
+    else:
+        und = Or(t < 1, t >= T - 1, CN(c, t), CN(c, t + 1), CN(c, t - 1), CV(c, t) == 0)
+        val = _fn("arccosh", (CV(c, t + 1) + CV(c, t - 1)) / (2 * CV(c, t)))
+    return und, val
+
+
+def _meff_requires(a):
+    """away from the singularities of log / arccosh (over the reals there is no -inf / NaN)"""
+    c, T, v = a.self, Tn(a.self), a.variant
+    if v == "arccosh":
+        return {"arccosh-domain": ForAll(1, T - 1, lambda t: Implies(Not(_meff_expected(a, t)[0]),
+                                                                      (CV(c, t + 1) + CV(c, t - 1)) / (2 * CV(c, t)) >= 1))}
+    return {"nonzero": ForAll(0, T, lambda t: Implies(Not(CN(c, t)), CV(c, t) != 0))}
+
+
+def _meff_corr(rng, variant):
+    T = rng.randint(4, 10)
+    sign = rng.choice([1.0, 1.0, -1.0])
+    vals = []
+    for t in range(T):
+        if rng.random() < 0.2:
+            vals.append(None)
+        elif variant == "arccosh":
+            vals.append(sign * (2.0 * __import__("math").cosh(0.3 * (t - T / 2))))
+        else:
+            v = sign * 3.0 * __import__("math").exp(-0.25 * t)
+            if rng.random() < 0.15:
+                v = -v
+            vals.append(v)
+    if all(x is None for x in vals):
+        vals[0], vals[1], vals[2] = sign * 3.0, sign * 2.0, sign * 1.5
+    return native_corr(vals)
+
+
+def _meff_post(a, r):
+    T = Tn(a.self)
+    return {"is-corr": is_corr(r), "T": Tn(r) == T,
+            "undefined-iff": ForAll(0, T, lambda t: Iff(CN(r, t), _meff_expected(a, t)[0])),
+            "documented formula": ForAll(0, T, lambda t: Implies(Not(_meff_expected(a, t)[0]), eq(CV(r, t), _meff_expected(a, t)[1])))}
+
+
+contract(
+    REL + "::Corr.m_eff", name=REL + "::Corr.m_eff[log, logsym]", props=["C15"], lib="obs",
+    params=dict(self=CorrSpec(min_T=3), variant=OneOf(log=Const("log"), logsym=Const("logsym")), guess=Const(Fraction(1))),
+    requires=lambda a: _meff_requires(a),
+    raises=[("ValueError", lambda a: ForAll(0, Tn(a.self), lambda t: _meff_expected(a, t)[0]))],
+    ensures=_meff_post,
+    result=new_corr, crosscheck="loose",
+    gen=lambda rng, case: {"self": _meff_corr(rng, case["variant"]), "variant": case["variant"], "guess": 1.0},
+    note="the logarithm / arccosh are uninterpreted real functions: arguments outside their domain (non-positive quotient, |x| < 1) "
+         "are outside this contract (NaN filtering does not exist over the reals); the arccosh variant is not decided (its domain "
+         "condition at the call of Corr.arccosh is a nonlinear inequality the solvers do not settle)",
+)
